@@ -51,6 +51,17 @@ func c09mMisflagged(b c09mbox, out reflect.Type) bool {
 	return b.v.Type().Size() == out.Size() && (b.v.Type().Kind() != out.Kind() || c09mDirect(b.v.Type()) != c09mDirect(out))
 }
 
+// c09mUnsafeStored: goom would accept b for a parameter of type t by retyping it (arg/value.go:51-56), but the pair is not a
+// layout-compatible stand-in (or is mis-flagged): the stored value takes part in EVERY comparison of that stub, and goom's
+// `equal` follows pointers (Elem / reflect.DeepEqual) as the declared type — e.g. a **int view of a *[2]int32 would follow an
+// int32 pair as a pointer.  The property promises comparison only for layout-compatible stand-ins, so no call is made then.
+func c09mUnsafeStored(b c09mbox, t reflect.Type) bool {
+	if b.nilv || b.v.Type() == t || (t.Kind() != reflect.Struct && t.Kind() != reflect.Ptr) || b.v.Type().Size() != t.Size() {
+		return false // not retyped (kept as is, boxed, or rejected)
+	}
+	return c09mMisflagged(b, t) || !cat.SafeRetype(b.v, t)
+}
+
 // c09mActual is the argument a caller would pass for "the supplied value b, as a value of the declared type t":
 // the zero value for nil, the value itself when assignable, the same bytes retyped for an accepted stand-in.
 func c09mActual(b c09mbox, t reflect.Type) (reflect.Value, bool) {
@@ -359,7 +370,7 @@ func TestVerifC09(t *testing.T) {
 				if cfg != "" {
 					return cfg
 				}
-				if c09mMisflagged(b, d.Typ) {
+				if c09mUnsafeStored(b, d.Typ) {
 					return "ok # match=-"
 				}
 				// call with the supplied value itself (the zero value for nil) when it has the parameter's type
@@ -412,7 +423,7 @@ func TestVerifC09(t *testing.T) {
 						}
 						var mm []string
 						for _, b := range boxes {
-							if c09mMisflagged(b, d.Typ) { // a mis-flagged stored value takes part in every comparison: no calls
+							if c09mUnsafeStored(b, d.Typ) { // such a stored value takes part in every comparison: no calls
 								ms = append(ms, "-")
 								return
 							}
@@ -447,7 +458,7 @@ func TestVerifC09(t *testing.T) {
 				if cfg != "" {
 					return cfg
 				}
-				if c09mMisflagged(ba, ta) || c09mMisflagged(bb, tb) {
+				if c09mUnsafeStored(ba, ta) || c09mUnsafeStored(bb, tb) {
 					return "ok # match=-"
 				}
 				return cat.Catch("callpanic:", func() string {
@@ -481,7 +492,7 @@ func TestVerifC09(t *testing.T) {
 					return cfg
 				}
 				for _, b := range boxes {
-					if c09mMisflagged(b, et) {
+					if c09mUnsafeStored(b, et) {
 						return "ok # match=-"
 					}
 				}
